@@ -534,7 +534,7 @@ class Translator:
         if isinstance(st, ast.Raise):
             if not sp.fallible: raise Unsupported("raise in total function")
             return ("None", RES(sp.ret))
-        if isinstance(st, ast.With) and len(st.items) == 1 and ast.unparse(st.items[0].context_expr).startswith("get_pool_executor("):
+        if isinstance(st, ast.With) and len(st.items) == 1 and ast.unparse(st.items[0].context_expr) == "get_pool_executor(self._mode, self._workers)":
             return self.tr_body(list(st.body) + rest, env)
         if isinstance(st, ast.Assign) and len(st.targets) == 1:
             tg = st.targets[0]
